@@ -240,12 +240,17 @@ func dlgScenario(s dlg) sched.Scenario {
 
 // dbl: the command ends in a doubled character and unread bytes (the prompt printed at connect) precede its
 // echo -- what a fuzzy echo matcher that lets one echoed byte count twice needs in order to return early
-func cmdScenario(eager, dbl bool, maxChunk, env int) sched.Scenario {
+func cmdScenario(eager, dbl, long bool, maxChunk, env int) sched.Scenario {
 	cmd := cm.Cmd1
 	name := fmt.Sprintf("cmd/eager=%v/chunk=%d/env=%d", eager, maxChunk, env)
 	if dbl {
 		cmd = "show vlan 100"
 		name += "/doubled"
+	}
+	if long {
+		// longer than the (lowered) search depth and repetitive: a partial echo already contains its tail
+		cmd = strings.Repeat("ab ", 40) + "ab"
+		name += "/longcmd"
 	}
 	return sched.Scenario{Name: name, Run: func(w *sched.W) {
 		cfg := cm.Cfg()
@@ -258,7 +263,7 @@ func cmdScenario(eager, dbl bool, maxChunk, env int) sched.Scenario {
 		w.Explore(cfg, sched.Bounds{Env: env}, func(e *sched.Env) {
 			d := cm.StdCLI("privilege-exec", false)
 			d.NoFirst = true
-			if dbl {
+			if dbl || long {
 				d = dev.NewCLI("m", &dev.Mode{Name: "m", Prompt: "router#", OnLine: dev.Table(map[string]dev.Reply{cmd: {Out: cm.Out1}})})
 			}
 			tr := dev.NewFake(e, d)
@@ -267,7 +272,11 @@ func cmdScenario(eager, dbl bool, maxChunk, env int) sched.Scenario {
 			var res string
 			w0 := 0
 			e.Go("client", func() {
-				g, nerr := generic.NewDriver("dev", cm.BaseOpts(tr, rd, 300*cm.Ms, 0)...)
+				gopts := cm.BaseOpts(tr, rd, 300*cm.Ms, 0)
+				if long {
+					gopts = append(gopts, options.WithPromptSearchDepth(48))
+				}
+				g, nerr := generic.NewDriver("dev", gopts...)
 				if nerr != nil {
 					setupErr = nerr
 					return
@@ -319,10 +328,14 @@ type esc struct {
 	authEdge  bool
 	maxChunk  int
 	env       int
+	noise     bool // the device prints an unsolicited log line right after the prompt, in the same burst
 }
 
 func escScenario(s esc) sched.Scenario {
 	name := fmt.Sprintf("esc/%s/secret=%v/auth=%v/chunk=%d/env=%d", s.behaviour, s.secret, s.authEdge, s.maxChunk, s.env)
+	if s.noise {
+		name += "/noise"
+	}
 	return sched.Scenario{Name: name, Run: func(w *sched.W) {
 		cfg := cm.Cfg()
 		cfg.NoPreAlt, cfg.NoIdleAlt = true, s.env == 0
@@ -343,8 +356,16 @@ func escScenario(s esc) sched.Scenario {
 						case "asks-grants", "asks-refuses":
 							return dev.Reply{Raw: &pw, Next: "pw"}
 						case "grants":
+							if s.noise {
+								raw := "router#\n%LINK-3-UPDOWN: Interface Gi1, changed state to up\n"
+								return dev.Reply{Raw: &raw, Next: "priv"}
+							}
 							return dev.Reply{Next: "priv"}
 						default:
+							if s.noise {
+								raw := "% Command authorization failed\nrouter>\n%LINK-3-UPDOWN: Interface Gi1, changed state to up\n"
+								return dev.Reply{Raw: &raw}
+							}
 							return dev.Reply{Out: "% Command authorization failed"}
 						}
 					}
@@ -487,7 +508,7 @@ func scenarios(tier string) []sched.Scenario {
 			if mc == 0 {
 				env = envB + 1
 			}
-			out = append(out, cmdScenario(eager, false, mc, env), cmdScenario(eager, true, mc, env))
+			out = append(out, cmdScenario(eager, false, false, mc, env), cmdScenario(eager, true, false, mc, env), cmdScenario(eager, false, true, mc, env))
 		}
 	}
 	for _, b := range []string{"asks-grants", "grants", "refuses", "asks-refuses"} {
@@ -498,7 +519,10 @@ func scenarios(tier string) []sched.Scenario {
 					if mc == 0 {
 						env = envB
 					}
-					out = append(out, escScenario(esc{b, secret, auth, mc, env}))
+					out = append(out, escScenario(esc{b, secret, auth, mc, env, false}))
+					if b == "grants" || b == "refuses" {
+						out = append(out, escScenario(esc{b, secret, auth, mc, env, true}))
+					}
 				}
 			}
 		}
